@@ -52,7 +52,7 @@ PROPS = {
     ),
     "C04": P(
         technique="Lean 4 proof of the header decision logic over the full header alphabet + decide over the regenerated check list + differential correspondence",
-        level_text="Proof: the reader's header check reports an error exactly for the violations the property lists (all b0/b1, both roles, negotiated or not, idle or mid-message); the accepted close codes are exactly 1000-1003, 1007-1013, 3000-4999 (table regenerated from conn.go); the list of checks recognised in today's advanceFrame equals the modelled one (decide); for EVERY read program (violation_program_fits_completed_partial; partial: whole messages within the read limit, delivery clause only) on whole messages followed by a violating header and any bytes, the messages the application's trace reports as complete are a sublist of the whole messages — nothing behind the violation is ever delivered; at the API: after any conformant history the NextReader call (idle) or the Read call (inside a fragmented message) that meets the violating frame returns the protocol error with zero bytes, invokes no handler, latches the error and writes exactly one 1002 close frame. Tie: every violation class injected after random conformant prefixes, in both protocol states, on the real package and the model (errors, 1002 frames, handler logs compared exactly); oracle: nothing after the violation surfaces, same error twice, 1002 written.",
+        level_text="Proof: the reader's header check reports an error exactly for the violations the property lists (all b0/b1, both roles, negotiated or not, idle or mid-message); the accepted close codes are exactly 1000-1003, 1007-1013, 3000-4999 (table regenerated from conn.go); the list of checks recognised in today's advanceFrame equals the modelled one (decide); for EVERY read program (violation_program_fits_partial; partial: whole messages within the read limit) on whole messages followed by a violating header and any bytes, the messages the application's trace reports as complete are a sublist of the whole messages and the handler log is a prefix of their control frames — nothing behind the violation is ever delivered or handed to a handler; at the API: after any conformant history the NextReader call (idle) or the Read call (inside a fragmented message) that meets the violating frame returns the protocol error with zero bytes, invokes no handler, latches the error and writes exactly one 1002 close frame. Tie: every violation class injected after random conformant prefixes, in both protocol states, on the real package and the model (errors, 1002 frames, handler logs compared exactly); oracle: nothing after the violation surfaces, same error twice, 1002 written.",
         level_note="RSV1 on control/continuation frames while negotiated is accepted by the code and is not in the property's list; a 1-byte close body is treated as no body.",
         lean=["WS.Props.C04"],
         streams=[("rviol", 800, 16000), ("sched", 64, 1000)],
